@@ -70,7 +70,8 @@ TOK_RE = re.compile(
     r"|(?P<cbnull>->\s*async_cb\s*==\s*NULL)|(?P<cb>->\s*async_cb\s*\()"
     r"|(?P<qmove>\buv__queue_move\s*\()|(?P<qpop>\buv__queue_insert_tail\s*\()|(?P<unlink>\buv__queue_remove\s*\(\s*&)"
     r"|(?P<spin>\buv__async_spin\s*\()|(?P<hstop>\buv__handle_stop\s*\()"
-    r"|(?P<kevent>\bkevent\s*\()")
+    r"|(?P<kevent>\bkevent\s*\()"
+    r"|(?P<doloop>\bdo\b)|(?P<whilecond>\bwhile\s*\()|(?P<eintr>\berrno\s*==\s*EINTR\b)|(?P<eagain>\berrno\s*==\s*EAGAIN\b)")
 
 
 def lean_int(s):
@@ -105,7 +106,8 @@ def extract_tokens(body):
             out.append({"ret": ".ret", "cont": ".cont", "wakeup": ".wakeup", "write": ".writeEfd", "read": ".readEfd",
                         "cbnull": ".cbNullCheck", "cb": ".callback", "qmove": ".queueMove", "qpop": ".queuePop",
                         "unlink": ".unlink", "spin": ".spin", "hstop": ".handleStop",
-                        "kevent": '.other "kevent"'}[kind])
+                        "kevent": '.other "kevent"', "doloop": ".doLoop", "whilecond": ".whileCond",
+                        "eintr": ".ifEintr", "eagain": ".ifEagain"}[kind])
     return out
 
 
@@ -134,10 +136,10 @@ def gen_async_seq(ctx):
 
 
 # ----------------------------------------------------------------------------- configurations
-def cfg_line(nh, close, senders, sig=(), free="safe"):
-    return ("cfg nh=%d close=%s senders=%s sig=%s free=%s" % (
+def cfg_line(nh, close, senders, sig=(), free="safe", eintr=0, cap=None):
+    return ("cfg nh=%d close=%s senders=%s sig=%s free=%s eintr=%d cap=%s" % (
         nh, ",".join(map(str, close)) or "-", ";".join(",".join(map(str, p)) for p in senders) or "-",
-        ",".join(f"{t}:{v}" for t, v in sig) or "-", free))
+        ",".join(f"{t}:{v}" for t, v in sig) or "-", free, eintr, "-" if cap is None else cap))
 
 
 DFS_QUICK = [
@@ -151,6 +153,9 @@ DFS_QUICK = [
     cfg_line(2, [0], [[0, 1]]),
     cfg_line(2, [0, 1], [[0], [1]]),                  # callbacks closing themselves and the other handle, in any order, during the scan
     cfg_line(2, [0, 1], [[0]]),                       # ... while the other handle never got a send
+    cfg_line(1, [], [[0], [0]], eintr=2),             # wake-up write / drain read interrupted (EINTR), any call, up to twice
+    cfg_line(2, [], [[0], [1]], eintr=1, cap=1),      # counter saturated: the second effective send's write answers EAGAIN
+    cfg_line(1, [0], [[0, 0]], eintr=1, cap=1),
 ]
 DFS_THOROUGH = [
     cfg_line(1, [0], [[0, 0], [0]]),
@@ -164,6 +169,9 @@ DFS_THOROUGH = [
     cfg_line(3, [1], [[0, 1], [2, 1]]),
     cfg_line(1, [0], [[0, 0], [0, 0]]),
     cfg_line(2, [1], [[0], [1], [1]], sig=[(2, "l")]),
+    cfg_line(2, [1], [[0, 1], [1, 0]], eintr=2, cap=1),
+    cfg_line(1, [0], [[0], [0], [0]], eintr=1),
+    cfg_line(2, [], [[0, 1], [1]], sig=[(1, "l")], eintr=2, cap=2),
 ]
 PROBE_FREE_IN_CB = cfg_line(1, [0], [[0]], free="cb")
 
@@ -178,7 +186,7 @@ def gen_rand_cfg(rng):
         t = rng.below(ns)
         v = rng.choice(["l"] + [x for x in range(ns) if x != t])
         sig = [(t, v)]
-    return cfg_line(nh, close, senders, sig)
+    return cfg_line(nh, close, senders, sig, eintr=rng.choice([0, 0, 1, 2, 3]), cap=rng.choice([None, None, 1, 2]))
 
 
 # ----------------------------------------------------------------------------- running and comparing
@@ -202,8 +210,8 @@ def in_window_switches(path_states):
     n = 0
     for i in range(1, len(path_states)):
         (t0, st0), (t1, _) = path_states[i - 1], path_states[i]
-        th0 = "l" if t0[0] in "lcf" else t0
-        th1 = "l" if t1[0] in "lcf" else t1
+        th0 = "l" if t0[0] in "lcfi" else "s" + t0[1:]
+        th1 = "l" if t1[0] in "lcfi" else "s" + t1[1:]
         if th0 == th1:
             continue
         if th0 == "l":
@@ -319,7 +327,7 @@ def report(ctx, exe, viols, label):
         seen.add(sig)
         rep = shrink(ctx, exe, sig, rep)
         ctx.violation(sig, f"C09 ({label}) {sig}: {what}; configuration `{rep['cfg']}`, schedule `{rep['sched']}` "
-                           f"(s<t> = next step of sender t, l = loop thread step, c<h> = uv_close(h), f = run close callbacks)", rep)
+                           f"(s<t> = next step of sender t, l = loop thread step, c<h> = uv_close(h), f = run close callbacks, e<t> = sender t's eventfd write answers EINTR, i = the loop's eventfd read answers EINTR)", rep)
 
 
 def run(ctx):
@@ -362,6 +370,8 @@ def run(ctx):
         (cfg_line(1, [], [[0, 0]]), "s0 s0 s0 s0 s0 l l s0 s0 s0 l s0 s0 s0 s0 l l l l l l"),  # preempted between drain and scan
         (cfg_line(1, [0], [[0]]), "s0 s0 s0 c0 l s0 s0 l f"),                         # close spins for a sender in the critical section
         (cfg_line(2, [0], [[0, 1]]), "s0 s0 s0 s0 s0 s0 l l l c0 l l l s0 s0 s0 s0 s0 s0 l l l l f"),  # close inside a callback
+        (cfg_line(1, [], [[0, 0]], eintr=3), "s0 s0 s0 s0 e0 e0 s0 s0 l i l l l s0 s0"),     # EINTR twice on the wake-up write, once on the drain
+        (cfg_line(2, [], [[0], [1]], cap=1), "s0 s0 s0 s0 s0 s1 s1 s1 s1 s1 s1 s0 l l l l l l"),  # second write answers EAGAIN
     ]
     corpus.append((cfg_line(2, [0, 1], [[0]]), "s0 s0 s0 s0 s0 s0 l l l c0 l l c1 l l l l f"))   # h0's callback closes itself, then its neighbour
     corpus.append((cfg_line(1, [0], [[0], [0]]), "s0 s0 s0 s0 s1 s1 l l l l s1 s1 s1 s1 s1 c0 l s0 s0 l"))  # two overlapping senders, close while one is parked at the eventfd write
